@@ -1,5 +1,494 @@
-//! C06 — not built yet.
-#![allow(unused)]
+//! C06 — GLM fitting: case generation for the Coq correspondence (step mode + full runs, the inner linear solve and
+//! the matrix inverse recorded like libm calls) and the failure-search oracle (score equations, least squares,
+//! deviance, standard errors, predictions, permutation, convergence status).
+#![allow(clippy::needless_range_loop, clippy::too_many_arguments)]
+use crate::libm;
 use crate::util::*;
-pub fn gen(_tier: &str, _seed: u64, _outdir: &str) { eprintln!("C06: gen not implemented"); std::process::exit(3); }
-pub fn oracle(_tier: &str, _seed: u64) -> (u64, Vec<Finding>) { eprintln!("C06: oracle not implemented"); std::process::exit(3); }
+use compute::linalg::{invert_matrix, matmul, solve};
+use compute::predict::{ExponentialFamily as Fam, GLM};
+use compute::statistics::mean;
+
+const FAMS: [(Fam, &str); 6] = [
+    (Fam::Gaussian, "Gaussian"), (Fam::Bernoulli, "Bernoulli"), (Fam::QuasiPoisson, "QuasiPoisson"),
+    (Fam::Poisson, "Poisson"), (Fam::Gamma, "Gamma"), (Fam::Exponential, "Exponential"),
+];
+
+/// the library prints the coefficient vector to stdout on every iteration: send fd 1 to /dev/null
+fn silence_stdout() {
+    use std::os::raw::{c_char, c_int};
+    extern "C" { fn open(path: *const c_char, flags: c_int, ...) -> c_int; fn dup2(a: c_int, b: c_int) -> c_int; }
+    unsafe { let fd = open(b"/dev/null\0".as_ptr() as *const c_char, 1); if fd >= 0 { dup2(fd, 1); } }
+}
+
+#[derive(Clone)]
+struct Prob { fam: usize, n: usize, p: usize, x: Vec<f64>, y: Vec<f64>, w: Option<Vec<f64>>, wkind: usize, off: Option<Vec<f64>>, alpha: f64, tol: f64, beta: Vec<f64>, dkind: usize }
+
+impl Prob {
+    fn describe(&self) -> String {
+        format!("family={} n={} p={} alpha={:e} tol={:e} design_kind={} weights={} offsets={} x={} y={} w={} off={}",
+            FAMS[self.fam].1, self.n, self.p, self.alpha, self.tol, self.dkind, ["none", "integer", "real"][self.wkind], self.off.is_some(),
+            json_floats(&self.x), json_floats(&self.y), self.w.as_ref().map(|w| json_floats(w)).unwrap_or("null".into()),
+            self.off.as_ref().map(|w| json_floats(w)).unwrap_or("null".into()))
+    }
+}
+
+fn design_matrix(r: &mut Rng, n: usize, p: usize, kind: usize) -> Vec<f64> {
+    // column 0 = 1; kind 0: standardised random, 1: polynomial in t in [-1,1], 2: balanced indicators, 3: mixed
+    let mut cols: Vec<Vec<f64>> = vec![vec![1.0; n]];
+    let t: Vec<f64> = (0..n).map(|_| r.uniform(-1.0, 1.0)).collect();
+    let shift = r.below(7) as usize;
+    for j in 1..p {
+        let k = if kind == 3 { r.below(3) as usize } else { kind };
+        let c: Vec<f64> = match k {
+            0 => {
+                let v: Vec<f64> = (0..n).map(|_| r.normal()).collect();
+                let m = v.iter().sum::<f64>() / n as f64;
+                let s = (v.iter().map(|a| (a - m) * (a - m)).sum::<f64>() / n as f64).sqrt();
+                v.iter().map(|a| (a - m) / s).collect()
+            }
+            1 => t.iter().map(|a| a.powi(j as i32)).collect(),
+            _ => (0..n).map(|i| if (i + shift) % p == j { 1.0 } else { 0.0 }).collect(),
+        };
+        cols.push(c);
+    }
+    let mut x = vec![0.0; n * p];
+    for i in 0..n { for j in 0..p { x[i * p + j] = cols[j][i]; } }
+    x
+}
+
+fn ref_mu(fam: usize, eta: f64) -> f64 { match fam { 0 => eta, 1 => 1.0 / (1.0 + (-eta).exp()), _ => eta.exp() } }
+fn ref_dmu(fam: usize, mu: f64) -> f64 { match fam { 0 => 1.0, 1 => mu * (1.0 - mu), _ => mu } }
+fn ref_var(fam: usize, mu: f64) -> f64 { match fam { 0 => 1.0, 1 => mu * (1.0 - mu), 2 | 3 => mu, _ => mu * mu } }
+fn ref_unit_dev(fam: usize, y: f64, mu: f64) -> f64 {
+    match fam {
+        0 => (y - mu) * (y - mu),
+        1 => -2.0 * ((if y > 0.0 { y * mu.ln() } else { 0.0 }) + (if y < 1.0 { (1.0 - y) * (1.0 - mu).ln() } else { 0.0 })),
+        2 | 3 => 2.0 * ((if y > 0.0 { y * (y / mu).ln() } else { 0.0 }) - (y - mu)),
+        _ => 2.0 * ((y - mu) / mu - (y / mu).ln()),
+    }
+}
+fn has_disp(fam: usize) -> bool { matches!(fam, 0 | 2 | 4) }
+fn canonical(fam: usize) -> bool { fam <= 3 }
+
+fn problem(r: &mut Rng, fam: usize, n: usize, p: usize, dkind: usize, wkind: usize, with_off: bool, alpha: f64, tol: f64) -> Prob {
+    let x = design_matrix(r, n, p, dkind);
+    let mut beta: Vec<f64> = (0..p).map(|_| r.uniform(-1.5, 1.5) / ((p.max(2) - 1) as f64).sqrt()).collect();
+    beta[0] = r.uniform(-1.0, 1.0);
+    let off = if with_off { Some((0..n).map(|_| r.uniform(-0.5, 0.5)).collect::<Vec<f64>>()) } else { None };
+    let w = match wkind { 0 => None, 1 => Some((0..n).map(|_| r.range(1, 3) as f64).collect::<Vec<f64>>()), _ => Some((0..n).map(|_| r.uniform(0.5, 2.0)).collect::<Vec<f64>>()) };
+    let mut y = vec![0.0; n];
+    for i in 0..n {
+        let mut eta = 0.0; for j in 0..p { eta += x[i * p + j] * beta[j]; }
+        if let Some(o) = &off { eta += o[i]; }
+        let mu = ref_mu(fam, eta);
+        y[i] = match fam {
+            0 => mu + 0.7 * r.normal(),
+            1 => if r.unit() < mu { 1.0 } else { 0.0 },
+            2 | 3 => {
+                if mu > 30.0 { (mu + mu.sqrt() * r.normal()).round().max(0.0) }
+                else { let l = (-mu).exp(); let mut k = 0.0; let mut pr = r.unit(); while pr > l { k += 1.0; pr *= r.unit(); } k }
+            }
+            4 => { let mut s = 0.0; for _ in 0..3 { s -= (1.0 - r.unit()).ln(); } mu * s / 3.0 }
+            _ => -mu * (1.0 - r.unit()).ln(),
+        };
+    }
+    Prob { fam, n, p, x, y, w, wkind, off, alpha, tol, beta, dkind }
+}
+
+fn make_glm(pr: &Prob) -> GLM {
+    let mut g = GLM::new(FAMS[pr.fam].0);
+    g.set_penalty(pr.alpha).set_tolerance(pr.tol);
+    if let Some(w) = &pr.w { g.set_weights(w); }
+    if let Some(o) = &pr.off { g.set_offset(o); }
+    g
+}
+fn run_fit(pr: &Prob, max_iter: usize) -> Result<(bool, GLM), String> {
+    catch(|| { let mut g = make_glm(pr); let ok = g.fit(&pr.x, &pr.y, max_iter).is_ok(); (ok, g) })
+}
+
+// ------------------------------------------------------------------------------------------------------------
+// independent reference computations for the oracle
+fn ref_eta(pr: &Prob, x: &[f64], off: Option<&Vec<f64>>, beta: &[f64]) -> Vec<f64> {
+    let p = pr.p; let n = x.len() / p;
+    (0..n).map(|i| { let mut e = 0.0; for j in 0..p { e += x[i * p + j] * beta[j]; } if let Some(o) = off { e += o[i]; } e }).collect()
+}
+/// (score_alpha, scale) per coordinate
+fn ref_score(pr: &Prob, beta: &[f64]) -> (Vec<f64>, Vec<f64>) {
+    let eta = ref_eta(pr, &pr.x, pr.off.as_ref(), beta);
+    let (n, p) = (pr.n, pr.p);
+    let mut s = vec![0.0; p]; let mut sc = vec![0.0; p];
+    for i in 0..n {
+        let mu = ref_mu(pr.fam, eta[i]);
+        let wi = pr.w.as_ref().map(|w| w[i]).unwrap_or(1.0);
+        let t = wi * (pr.y[i] - mu) * ref_dmu(pr.fam, mu) / ref_var(pr.fam, mu);
+        for j in 0..p { s[j] += pr.x[i * p + j] * t; sc[j] += (pr.x[i * p + j] * t).abs(); }
+    }
+    for j in 1..p { s[j] -= pr.alpha * beta[j]; sc[j] += (pr.alpha * beta[j]).abs(); }
+    (s, sc)
+}
+fn ref_fisher(pr: &Prob, beta: &[f64]) -> Vec<f64> {
+    let eta = ref_eta(pr, &pr.x, pr.off.as_ref(), beta);
+    let (n, p) = (pr.n, pr.p);
+    let mut h = vec![0.0; p * p];
+    for i in 0..n {
+        let mu = ref_mu(pr.fam, eta[i]);
+        let wi = pr.w.as_ref().map(|w| w[i]).unwrap_or(1.0);
+        let d = ref_dmu(pr.fam, mu);
+        let ww = wi * d * d / ref_var(pr.fam, mu);
+        for j in 0..p { for k in 0..p { h[j * p + k] += pr.x[i * p + j] * ww * pr.x[i * p + k]; } }
+    }
+    h
+}
+fn ref_deviance(pr: &Prob, beta: &[f64], weighted: bool) -> f64 {
+    let eta = ref_eta(pr, &pr.x, pr.off.as_ref(), beta);
+    (0..pr.n).map(|i| (if weighted { pr.w.as_ref().map(|w| w[i]).unwrap_or(1.0) } else { 1.0 }) * ref_unit_dev(pr.fam, pr.y[i], ref_mu(pr.fam, eta[i]))).sum()
+}
+/// Gauss-Jordan with partial pivoting: solves A X = B (B with m columns); None when singular
+fn gauss(a: &[f64], b: &[f64], p: usize, m: usize) -> Option<Vec<f64>> {
+    let mut a = a.to_vec(); let mut b = b.to_vec();
+    for c in 0..p {
+        let mut piv = c; for r in c + 1..p { if a[r * p + c].abs() > a[piv * p + c].abs() { piv = r; } }
+        if !(a[piv * p + c].abs() > 0.0) { return None; }
+        if piv != c { for k in 0..p { a.swap(c * p + k, piv * p + k); } for k in 0..m { b.swap(c * m + k, piv * m + k); } }
+        for r in 0..p { if r != c {
+            let f = a[r * p + c] / a[c * p + c];
+            for k in 0..p { a[r * p + k] -= f * a[c * p + k]; }
+            for k in 0..m { b[r * m + k] -= f * b[c * m + k]; }
+        } }
+    }
+    for r in 0..p { for k in 0..m { b[r * m + k] /= a[r * p + r]; } }
+    Some(b)
+}
+fn tolfac(fam: usize, tol: f64) -> f64 { 100.0 * tol + if canonical(fam) { 0.0 } else { 10.0 * tol.sqrt() } + 1e-7 }
+
+pub fn oracle(tier: &str, seed: u64) -> (u64, Vec<Finding>) {
+    silence_stdout();
+    let thorough = tier == "thorough";
+    let mut r = Rng::new(seed ^ 0x0C06);
+    let mut out: Vec<Finding> = vec![]; let mut tried = 0u64;
+    let add = |out: &mut Vec<Finding>, class: &str, what: String, input: String| { if !out.iter().any(|f| f.class == class) { out.push(Finding { class: class.into(), what, input }); } };
+    let iters = if thorough { 3000 } else { 300 };
+    let alphas = [0.0, 0.1, 1.0, 10.0];
+    for it in 0..iters {
+        let fam = it % 6;
+        let n = if it % 10 == 9 { 20 + r.below(481) as usize } else { 20 + r.below(100) as usize };
+        let p = 1 + r.below(6) as usize;
+        let alpha = alphas[(it / 6) % 4];
+        let tol = 10f64.powi(-(5 + r.below(10) as i32));
+        let wkind = [0, 0, 1, 2][r.below(4) as usize];
+        let (dk, wo) = (r.below(4) as usize, r.coin(0.4));
+        let pr = problem(&mut r, fam, n, p, dk, wkind, wo, alpha, tol);
+        let inp = pr.describe();
+        let wtag = if pr.wkind == 0 { "" } else { "weighted:" };
+        tried += 1;
+        crumb(&inp);
+        // (a) one iteration can never have converged: must be Err
+        match run_fit(&pr, 1) {
+            Ok((true, _)) => add(&mut out, "status:ok-after-one-iteration", "fit(.., max_iter = 1) returned Ok although no change of the deviance has been observed yet".into(), inp.clone()),
+            _ => {}
+        }
+        let (ok, g) = match run_fit(&pr, 100) { Ok(v) => v, Err(_) => continue };
+        if !ok { continue; }
+        let coef = g.coef().unwrap().to_vec();
+        if coef.iter().any(|c| !c.is_finite()) { add(&mut out, "status:ok-with-nonfinite-coefficients", format!("fit returned Ok with coefficients {:?}", coef), inp.clone()); continue; }
+        // the quantifier is over data for which the MLE exists (|beta| <= 1.5): a (quasi-)separated sample drives the
+        // coefficients off to infinity until the deviance stops changing; such fits are outside the property
+        if coef.iter().any(|c| c.abs() > 10.0) { continue; }
+        let tf = tolfac(fam, tol);
+        // (b) penalised score equations at the returned coefficients
+        let (s, sc) = ref_score(&pr, &coef);
+        for j in 0..p {
+            if !(s[j].abs() <= tf * sc[j].max(1.0)) {
+                add(&mut out, &format!("{}score:{}", wtag, if alpha > 0.0 { "penalised-score-not-zero" } else { "score-not-zero" }),
+                    format!("score equation {} at the returned coefficients: X^T W (y-mu) dmu/var - alpha*beta (intercept unpenalised) = {:e}, magnitude of its terms {:e}, allowed {:e} (coef {:?})", j, s[j], sc[j], tf * sc[j].max(1.0), coef), inp.clone());
+            }
+        }
+        // (c) Gaussian: (weighted, ridge) least squares
+        if fam == 0 {
+            let mut a = vec![0.0; p * p]; let mut b = vec![0.0; p];
+            for i in 0..n { let wi = pr.w.as_ref().map(|w| w[i]).unwrap_or(1.0); let yi = pr.y[i] - pr.off.as_ref().map(|o| o[i]).unwrap_or(0.0);
+                for j in 0..p { b[j] += pr.x[i * p + j] * wi * yi; for k in 0..p { a[j * p + k] += pr.x[i * p + j] * wi * pr.x[i * p + k]; } } }
+            for j in 1..p { a[j * p + j] += alpha; }
+            if let Some(bls) = gauss(&a, &b, p, 1) {
+                let sz = bls.iter().fold(1.0f64, |m, v| m.max(v.abs()));
+                for j in 0..p { if !((coef[j] - bls[j]).abs() <= (tf + 1e-6) * sz) {
+                    add(&mut out, &format!("{}gaussian:not-ridge-least-squares", wtag), format!("coefficient {} = {:e}, (weighted, ridge) least squares gives {:e}", j, coef[j], bls[j]), inp.clone()); } }
+            }
+        }
+        // (d) deviance at the fitted means
+        let dev = g.deviance().unwrap();
+        let dref = ref_deviance(&pr, &coef, false);
+        if pr.wkind == 0 {
+            if !((dev - dref).abs() <= tf * (dref.abs() + 1.0)) {
+                add(&mut out, &format!("deviance:{}", if fam == 0 { "gaussian-not-residual-sum-of-squares" } else { "not-family-deviance" }),
+                    format!("deviance() = {:e}, the family's deviance at the fitted means is {:e}", dev, dref), inp.clone());
+            }
+        } else if pr.wkind == 1 {
+            let dw = ref_deviance(&pr, &coef, true);
+            if !((dev - dw).abs() <= tf * (dw.abs() + 1.0)) {
+                add(&mut out, "weighted:deviance-ignores-weights", format!("deviance() = {:e} with frequency weights; sum of w_i d_i = {:e}, unweighted sum = {:e}", dev, dw, dref), inp.clone());
+            }
+        }
+        // (e) aic / bic / dispersion formulas from the reported deviance
+        let nn = pr.w.as_ref().map(|w| w.iter().sum::<f64>()).unwrap_or(n as f64).round();
+        let (aic, bic, disp) = (g.aic().unwrap(), g.bic().unwrap(), g.dispersion().unwrap());
+        let rel = |a: f64, b: f64, t: f64| (a - b).abs() <= t * (a.abs().max(b.abs()) + 1e-300);
+        if !rel(aic, dev + 2.0 * p as f64, 1e-12) { add(&mut out, "aic:formula", format!("aic() = {:e}, deviance + 2p = {:e}", aic, dev + 2.0 * p as f64), inp.clone()); }
+        if !rel(bic, dev + p as f64 * nn.ln(), 1e-12) { add(&mut out, "bic:formula", format!("bic() = {:e}, deviance + p ln n = {:e}", bic, dev + p as f64 * nn.ln()), inp.clone()); }
+        let dispref = if has_disp(fam) { dev / (nn - p as f64) } else { 1.0 };
+        if !rel(disp, dispref, 1e-12) { add(&mut out, "dispersion:formula", format!("dispersion() = {:e}, expected {:e}", disp, dispref), inp.clone()); }
+        // (f) standard errors: sqrt diag (dispersion * inverse Fisher information at the fitted coefficients)
+        if pr.wkind != 2 {
+            let dtrue = ref_deviance(&pr, &coef, true);
+            let disp_true = if has_disp(fam) { dtrue / (nn - p as f64) } else { 1.0 };
+            let h = ref_fisher(&pr, &coef);
+            let mut eye = vec![0.0; p * p]; for j in 0..p { eye[j * p + j] = 1.0; }
+            if let (Some(hi), Ok(se)) = (gauss(&h, &eye, p, p), catch(|| g.coef_standard_error().unwrap().to_vec())) {
+                for j in 0..p {
+                    let sref = (disp_true * hi[j * p + j]).sqrt();
+                    if !rel(se[j], sref, tf + 1e-6) {
+                        add(&mut out, &format!("{}stderr:not-sqrt-diag-dispersion-inverse-information", wtag), format!("standard error {} = {:e}, sqrt(dispersion * [I^-1]_jj) = {:e}", j, se[j], sref), inp.clone());
+                    }
+                }
+            }
+        }
+        // (g) predictions = inverse link of X.beta + offset (on the training design, so that stored offsets apply)
+        if let Ok(pred) = catch(|| g.predict(&pr.x).unwrap().to_vec()) {
+            let eta = ref_eta(&pr, &pr.x, pr.off.as_ref(), &coef);
+            for i in 0..n { let m = ref_mu(fam, eta[i]); if !rel(pred[i], m, 1e-11) { add(&mut out, "predict:not-inverse-link", format!("prediction {} = {:e}, inverse link of x.beta + offset = {:e}", i, pred[i], m), inp.clone()); break; } }
+        } else { add(&mut out, "predict:panics-on-training-design", "predict panicked on the design it was fitted on".into(), inp.clone()); }
+        // (h) invariance under a permutation of the observations
+        {
+            let mut idx: Vec<usize> = (0..n).collect();
+            for i in (1..n).rev() { let j = r.below(i as u64 + 1) as usize; idx.swap(i, j); }
+            let mut q = pr.clone();
+            for (k, &i) in idx.iter().enumerate() {
+                for j in 0..p { q.x[k * p + j] = pr.x[i * p + j]; }
+                q.y[k] = pr.y[i];
+                if let Some(w) = &pr.w { q.w.as_mut().unwrap()[k] = w[i]; }
+                if let Some(o) = &pr.off { q.off.as_mut().unwrap()[k] = o[i]; }
+            }
+            match run_fit(&q, 100) {
+                Ok((true, g2)) => {
+                    let c2 = g2.coef().unwrap();
+                    let sz = coef.iter().fold(1.0f64, |m, v| m.max(v.abs()));
+                    for j in 0..p { if !((coef[j] - c2[j]).abs() <= (10.0 * tol.sqrt() + 1e-7) * sz) {
+                        add(&mut out, "permutation:coefficients-change", format!("coefficient {} = {:e}, after reordering the observations {:e}", j, coef[j], c2[j]), inp.clone()); } }
+                    let d2 = g2.deviance().unwrap();
+                    if !((dev - d2).abs() <= (100.0 * tol + 1e-9) * (dev.abs() + 1.0)) { add(&mut out, "permutation:deviance-changes", format!("deviance {:e}, after reordering {:e}", dev, d2), inp.clone()); }
+                }
+                _ => {} // a different rounding may move the stopping iteration across max_iter; not a failure of the property
+            }
+        }
+        // (i) Ok means the convergence criterion (relative change of the penalised deviance < tol) really held between the last two iterations
+        {
+            let mut traj: Vec<Vec<f64>> = vec![]; let mut jstop = 0;
+            for k in 1..=100 { match run_fit(&pr, k) { Ok((okk, gk)) => { traj.push(gk.coef().unwrap().to_vec()); if okk { jstop = k; break; } } Err(_) => break } }
+            if jstop >= 3 {
+                // penalised deviance seen by iteration k: deviance at the means of beta_{k-1}, penalty at beta_k
+                let pd = |k: usize| ref_deviance(&pr, &traj[k - 2], false) + alpha * traj[k - 1][1..].iter().map(|b| b * b).sum::<f64>();
+                let (d1, d0) = (pd(jstop), pd(jstop - 1));
+                let relc = (d1 - d0).abs() / d0;
+                if !(relc < tol * (1.0 + 1e-6) + 1e-13) { add(&mut out, "status:ok-without-convergence", format!("fit returned Ok after {} iterations but the relative change of the penalised deviance (deviance + alpha*|beta_1..|^2) between the last two iterations is {:e} >= tolerance {:e}", jstop, relc, tol), inp.clone()); }
+            }
+        }
+        // (j) the public penalised deviance = deviance + alpha * sum of squares of the non-intercept coefficients
+        {
+            let eta = ref_eta(&pr, &pr.x, pr.off.as_ref(), &coef);
+            let mu: Vec<f64> = eta.iter().map(|e| ref_mu(fam, *e)).collect();
+            if let Ok(pd) = catch(|| FAMS[fam].0.penalized_deviance(&pr.y, &mu, alpha, &coef)) {
+                let want = ref_deviance(&pr, &coef, false) + alpha * coef[1..].iter().map(|b| b * b).sum::<f64>();
+                if !rel(pd, want, 1e-9) && p > 1 && alpha > 0.0 && fam != 0 { add(&mut out, "penalized-deviance:penalty-not-alpha-times-squared-norm", format!("penalized_deviance = {:e}, deviance + alpha*|beta_1..|^2 = {:e}", pd, want), inp.clone()); }
+            }
+        }
+        // (k) frequency weights = replicated observations
+        if pr.wkind == 1 && it % 3 == 0 {
+            let w = pr.w.as_ref().unwrap();
+            let mut q = pr.clone(); q.x.clear(); q.y.clear(); q.w = None; q.wkind = 0; let mut qo = vec![];
+            for i in 0..n { for _ in 0..(w[i] as usize) { q.x.extend_from_slice(&pr.x[i * p..(i + 1) * p]); q.y.push(pr.y[i]); if let Some(o) = &pr.off { qo.push(o[i]); } } }
+            q.n = q.y.len(); if pr.off.is_some() { q.off = Some(qo); }
+            if let Ok((true, g2)) = run_fit(&q, 100) {
+                let c2 = g2.coef().unwrap();
+                let sz = coef.iter().fold(1.0f64, |m, v| m.max(v.abs()));
+                for j in 0..p { if !((coef[j] - c2[j]).abs() <= (10.0 * tol.sqrt() + 1e-6) * sz) {
+                    add(&mut out, "weighted:coefficients-differ-from-replicated-data", format!("coefficient {} = {:e} with frequency weights, {:e} on the replicated data", j, coef[j], c2[j]), inp.clone()); } }
+                if let (Ok(se), Ok(se2)) = (catch(|| g.coef_standard_error().unwrap().to_vec()), catch(|| g2.coef_standard_error().unwrap().to_vec())) {
+                    for j in 0..p { if !rel(se[j], se2[j], tf + 1e-5) { add(&mut out, "weighted:stderr-differs-from-replicated-data", format!("standard error {} = {:e} with frequency weights, {:e} on the replicated data", j, se[j], se2[j]), inp.clone()); } }
+                }
+            }
+        }
+    }
+    (tried, out)
+}
+
+// ------------------------------------------------------------------------------------------------------------
+// correspondence cases
+
+/// mirror of one iteration's dataflow up to the linear solve, on the crate's own public functions:
+/// (argument matrix of `solve`, right-hand side, unpenalised information matrix, means)
+fn step_args(pr: &Prob, coef: &[f64]) -> (Vec<f64>, Vec<f64>, Vec<f64>, Vec<f64>) {
+    let (n, p) = (pr.n, pr.p);
+    let fam = FAMS[pr.fam].0;
+    let mut eta = matmul(&pr.x, coef, n, p, false, false);
+    if let Some(o) = &pr.off { assert_eq!(o.len(), n); for i in 0..n { eta[i] += o[i]; } }
+    let mu = fam.inv_link(&eta).to_vec();
+    let dmu = fam.d_inv_link(&eta, &mu).to_vec();
+    let var = fam.variance(&mu).to_vec();
+    let w: Vec<f64> = pr.w.clone().unwrap_or(vec![1.0; n]);
+    let mut dbeta = vec![0.0; p];
+    for i in 0..n { let wr = (w[i] * (pr.y[i] - mu[i])) * (dmu[i] / var[i]); for j in 0..p { dbeta[j] -= pr.x[i * p + j] * wr; } }
+    let mut wx = pr.x.clone();
+    for i in 0..n { let ww = (w[i] * (dmu[i] * dmu[i])) / var[i]; for j in 0..p { wx[i * p + j] *= ww; } }
+    let mut ddbeta = matmul(&pr.x, &wx, n, n, true, false);
+    let info = ddbeta.clone();
+    if pr.alpha > 0.0 { for j in 1..p { dbeta[j] += pr.alpha * coef[j]; } for j in 1..p { ddbeta[j * p + j] += pr.alpha; } }
+    (ddbeta, dbeta, info, mu)
+}
+
+fn opt_list(v: &Option<Vec<f64>>) -> Tm { match v { Some(v) => app("Some", vec![fl(v)]), None => Tm::Raw("None".into()) } }
+
+struct Obs { fit: Result<Vec<f64>, String>, cov: Result<Vec<f64>, String>, pred: Result<Vec<f64>, String>, ok: bool, coef: Vec<f64> }
+/// run fit(max_iter) and every accessor; libm calls of all of them are recorded by the caller
+fn observe(pr: &Prob, max_iter: usize, xnew: &[f64]) -> Obs {
+    match run_fit(pr, max_iter) {
+        Err(e) => Obs { fit: Err(e.clone()), cov: Err(e.clone()), pred: Err(e), ok: false, coef: vec![] },
+        Ok((ok, g)) => {
+            let coef = g.coef().unwrap().to_vec();
+            let fit = catch(|| { let mut v = vec![if ok { 0.0 } else { 1.0 }]; v.extend_from_slice(&coef); v.push(g.deviance().unwrap()); v.push(g.aic().unwrap()); v.push(g.bic().unwrap()); v.push(g.dispersion().unwrap()); v });
+            let cov = catch(|| { let mut v = g.coef_covariance_matrix().unwrap(); v.extend_from_slice(&g.coef_standard_error().unwrap()); v });
+            let pred = catch(|| g.predict(xnew).unwrap().to_vec());
+            Obs { fit, cov, pred, ok, coef }
+        }
+    }
+}
+
+fn solve_entry(a: &[f64], b: &[f64]) -> Tm { let (a2, b2) = (a.to_vec(), b.to_vec()); Tm::Tup(vec![fl(a), fl(b), outcome_list(&catch(move || solve(&a2, &b2)))]) }
+fn inv_entry(a: &[f64]) -> Tm { let a2 = a.to_vec(); Tm::Tup(vec![fl(a), outcome_list(&catch(move || invert_matrix(&a2)))]) }
+
+/// one correspondence case: `start` = None (run from the initial state with budget max_iter) or Some((coef_k, pdev_k))
+/// (one iteration from the observed state; the implementation side is fit(max_iter = k+1))
+fn fit_case(pr: &Prob, t: &libm::Table, stbl: Vec<Tm>, itbl: Vec<Tm>, max_iter: usize, start: Option<(&[f64], f64)>, xnew: &[f64], o: &Obs) -> Tm {
+    let st = match start { None => Tm::Raw("None".into()), Some((c, d)) => app("Some", vec![Tm::Tup(vec![fl(c), Tm::F(d)])]) };
+    app("CFit", vec![libm_table(t), Tm::L(stbl), Tm::L(itbl), Tm::Raw(FAMS[pr.fam].1.into()), Tm::F(pr.alpha), Tm::F(pr.tol), opt_list(&pr.w), opt_list(&pr.off),
+        fl(&pr.x), fl(&pr.y), Tm::Nat(max_iter as u64), st, fl(xnew), outcome_list(&o.fit), outcome_list(&o.cov), outcome_list(&o.pred)])
+}
+
+/// trajectory of one problem: step cases k -> k+1 until Ok or `kmax`, plus (optionally) the full run
+fn trajectory(cs: &mut Cases, pr: &Prob, kmax: usize, full: bool, tag: &str, r: &mut Rng) {
+    let (n, p) = (pr.n, pr.p);
+    let fam = FAMS[pr.fam].0;
+    // new design for predict: a few rows of the training design (so stored offsets of length n apply only when m = n)
+    let xnew: Vec<f64> = if pr.off.is_some() || r.coin(0.3) { pr.x.clone() } else { let m = 1 + r.below(5) as usize; pr.x[..(m.min(n)) * p].to_vec() };
+    let mut coef_prev: Vec<f64> = vec![];
+    let mut coef: Vec<f64> = { let mut c = vec![0.0; p.max(1)]; c[0] = mean(&pr.y); c.truncate(p.max(1)); c };
+    let mut all_solve: Vec<Tm> = vec![];
+    let mut last_inv: Vec<Tm> = vec![];
+    let mut steps = 0;
+    for k in 0..kmax {
+        // arguments of the inner solve at the observed state, through the crate's own public functions
+        let args = catch(|| step_args(pr, &coef));
+        let (stbl, itbl, pdev) = match &args {
+            Ok((a, b, info, _mu)) => {
+                let pdev = if k == 0 { f64::INFINITY } else {
+                    let mu_prev = catch(|| step_args(pr, &coef_prev)).map(|v| v.3).unwrap_or(vec![]);
+                    catch(|| fam.penalized_deviance(&pr.y, &mu_prev, pr.alpha, &coef)).unwrap_or(f64::NAN)
+                };
+                (vec![solve_entry(a, b)], vec![inv_entry(info)], pdev)
+            }
+            Err(_) => (vec![], vec![], f64::NAN),
+        };
+        libm::start();
+        let o = observe(pr, k + 1, &xnew);
+        let t = libm::stop();
+        let nontrivial = k >= 1 && o.fit.is_ok() && o.coef != coef;
+        let start = if k == 0 { None } else { Some((&coef[..], pdev)) };
+        cs.push(fit_case(pr, &t, stbl.clone(), itbl.clone(), 1, start, &xnew, &o), &format!("{}/step{}{}", tag, if k == 0 { "0" } else { "k" }, if o.fit.is_err() { "/panic" } else if o.ok { "/ok" } else { "/err" }), nontrivial);
+        all_solve.extend(stbl); last_inv = itbl;
+        steps = k + 1;
+        if o.fit.is_err() || o.ok { break; }
+        coef_prev = coef; coef = o.coef.clone();
+    }
+    if full && steps >= 2 {
+        // the whole run with budget = steps (and one with a larger budget when it stopped by convergence): all solves recorded
+        libm::start();
+        let o = observe(pr, steps, &xnew);
+        let t = libm::stop();
+        cs.push(fit_case(pr, &t, all_solve.clone(), last_inv.clone(), steps, None, &xnew, &o), &format!("{}/full{}", tag, if o.ok { "/ok" } else { "/err" }), true);
+        if o.ok {
+            libm::start();
+            let o2 = observe(pr, steps + 7, &xnew);
+            let t2 = libm::stop();
+            cs.push(fit_case(pr, &t2, all_solve, last_inv, steps + 7, None, &xnew, &o2), &format!("{}/full-spare-budget", tag), true);
+        }
+    }
+}
+
+fn special(r: &mut Rng, kind: usize) -> f64 {
+    match kind { 0 => *r.pick(&[0.0, -0.0, 1.0, -1.0, 0.5, 2.0, f64::INFINITY, f64::NEG_INFINITY, f64::NAN, 5e-324, -5e-324, 1e-310, 1e308, -745.2, 709.9, 40.0, -40.0]),
+                 1 => r.uniform(0.0, 1.0), 2 => r.range(0, 6) as f64, 3 => r.uniform(-4.0, 4.0), 5 => r.range(0, 1) as f64, _ => r.uniform(0.05, 9.0) }
+}
+
+pub fn gen(tier: &str, seed: u64, outdir: &str) {
+    silence_stdout();
+    let thorough = tier == "thorough";
+    let mut r = Rng::new(seed ^ 0xC06);
+    let mut cs = Cases::new("C06");
+    let mult = if thorough { 10 } else { 1 };
+    // 1. family tables on vectors with special values, every length residue mod 8
+    for i in 0..(240 * mult) {
+        let fam = i % 6; let which = (i / 6) % 5; let len = (i / 30) % 11 + if i % 7 == 0 { 8 } else { 0 };
+        let kind_a = if i % 3 == 0 { 0 } else { [3, 3, 3, 2, 1][which] };
+        let ka = if which >= 3 && kind_a != 0 { match fam { 0 => 3, 1 => 5, 2 | 3 => 2, _ => 4 } } else { kind_a };
+        let a: Vec<f64> = (0..len).map(|_| special(&mut r, ka)).collect();
+        let lb = if i % 11 == 5 { len + 1 } else { len };
+        let b: Vec<f64> = (0..lb).map(|_| special(&mut r, if i % 4 == 0 { 0 } else if fam == 1 { 1 } else { 4 })).collect();
+        let c: Vec<f64> = (0..(i % 5)).map(|_| special(&mut r, if i % 9 == 0 { 0 } else { 3 })).collect();
+        let alpha = *r.pick(&[0.0, 0.1, 1.0, 10.0]);
+        let f = FAMS[fam].0;
+        libm::start();
+        let e = match which {
+            0 => catch(|| f.variance(&a).to_vec()),
+            1 => catch(|| f.inv_link(&a).to_vec()),
+            2 => catch(|| f.d_inv_link(&a, &b).to_vec()),
+            3 => catch(|| vec![f.deviance(&a, &b)]),
+            _ => catch(|| vec![f.penalized_deviance(&a, &b, alpha, &c)]),
+        };
+        let t = libm::stop();
+        cs.push(app("CFam", vec![libm_table(&t), Tm::Nat(which as u64), Tm::Raw(FAMS[fam].1.into()), fl(&a), fl(&b), fl(&c), Tm::F(alpha), outcome_list(&e)]),
+            &format!("family/{}{}", ["variance", "inv_link", "d_inv_link", "deviance", "penalized_deviance"][which], if e.is_err() { "/panic" } else { "" }), len >= 1);
+    }
+    // 2. trajectories over the property's grid (small n dominate; a few large)
+    let alphas = [0.0, 0.1, 1.0, 10.0];
+    let nprob = if thorough { 400 } else { 48 };
+    for i in 0..nprob {
+        let fam = i % 6;
+        let n = if i % 12 == 11 { 100 + r.below(if thorough { 401 } else { 101 }) as usize } else { 20 + r.below(29) as usize };
+        let p = 1 + (i / 6) % 6;
+        let alpha = alphas[(i / 2) % 4];
+        let tol = 10f64.powi(-(5 + r.below(10) as i32));
+        let wkind = [0, 1, 2][(i / 3) % 3];
+        let pr = problem(&mut r, fam, n, p, (i / 4) % 4, wkind, i % 5 < 2, alpha, tol);
+        trajectory(&mut cs, &pr, if thorough { 12 } else { 8 }, true, FAMS[fam].1, &mut r);
+    }
+    // 3. malformed / degenerate stream: wrong lengths, not a design matrix, empty data, special values, alpha <= 0 / NaN
+    for i in 0..(60 * mult) {
+        let fam = i % 6;
+        let (n, p) = (1 + r.below(9) as usize, 1 + r.below(3) as usize);
+        let al = *r.pick(&[0.0, -1.0, 0.5, f64::NAN]);
+        let mut pr = problem(&mut r, fam, n.max(3), p, 0, [0, 1, 2][i % 3], i % 2 == 0, al, 1e-6);
+        match i % 10 {
+            0 => { pr.x.pop(); }
+            1 => { pr.y.pop(); pr.n -= 1; }
+            2 => { if let Some(w) = pr.w.as_mut() { w.pop(); } else { pr.x[0] = 1.0 + 4e-16; } }
+            3 => { if let Some(o) = pr.off.as_mut() { o.push(0.0); } else { pr.x[p] = 0.5; } }
+            4 => { pr.x[0] = f64::NAN; }
+            5 => { pr.y[0] = f64::INFINITY; }
+            6 => { pr.x.clear(); }
+            7 => { pr.y.clear(); pr.n = 0; }
+            8 => { let k = pr.n * pr.p; pr.x[k - 1] = f64::NAN; }
+            _ => { pr.x[0] = 1.0 + 2.0 * f64::EPSILON; }
+        }
+        trajectory(&mut cs, &pr, 3, i % 2 == 0, "malformed", &mut r);
+    }
+    cs.write(outdir, if thorough { 60 } else { 40 }, "six families x alpha in {0,0.1,1,10} x weights none/integer/real x offsets on/off x designs (standardised random, polynomial, indicator, mixed), n in 20..48 mostly and up to 200 (quick) / 500 (thorough), p in 1..6, tolerance 1e-5..1e-14, responses simulated from the model; per problem one step case per iteration k -> k+1 (model's one-step map from the observed state, inner solve/inverse answered from the recorded calls of the crate's own solve/invert_matrix) and full runs with the exact and a spare iteration budget; family tables on vectors of every length residue mod 8 with +-0, +-inf, NaN, subnormals; malformed stream (wrong lengths, not a design matrix, empty data, NaN/inf entries, alpha <= 0 or NaN); non-trivial = a step k >= 1 whose coefficients change; distinct by hash");
+}
